@@ -374,7 +374,8 @@ class ModelCompiler:
             else:
                 continue
             for term in terms:
-                addresses = [term]
+                # (a "$" is not part of the address of a cell)
+                addresses = [term.replace('$', '')]
                 name = term.split('!')[-1]
                 if name in model.defined_names:
                     defn = model.defined_names[name]
